@@ -511,7 +511,15 @@ impl World {
                     self.res.feat_add("obj_conflict_obs", 1);
                 }
             }
-            for (r, _, _) in &o.revs {
+            for (r, p, _) in &o.revs {
+                // C19: the identifier is a function of the content digest and the parent's identifier text
+                if let (Some(p), Some((_, d, _))) = (p, refmodel::rev_parts(r)) {
+                    if refmodel::child_rev(p, &d).as_deref() != Some(r.as_str()) {
+                        self.res.viol("C19", "identifier-not-derived-from-digest-and-parent", format!("r{} {}: {} recorded with parent {} (canonical: {:?})", i, u, r, p, refmodel::child_rev(p, &d)));
+                    }
+                } else if p.is_none() && refmodel::rev_parts(r).map(|x| x.0 != 1 || x.2.is_some()).unwrap_or(true) {
+                    self.res.viol("C19", "parentless-revision-not-a-creation", format!("r{} {}: {}", i, u, r));
+                }
                 let ok = match Revision::from(r) {
                     Ok(x) => x.to_string() == *r,
                     Err(_) => false,
